@@ -282,7 +282,7 @@ func (x *Exec) copyRange(st *State, elem types.Type, dreg, dlo, n *Term, src, sl
 		return
 	}
 	na := e.fresh("cp", old.S)
-	kv := Var("k!cp", e.ar.I())
+	kv := Var("$b_kcp", e.ar.I())
 	in := And(e.ar.Cmp(token.LEQ, tInt, dlo, kv), e.ar.Cmp(token.LSS, tInt, kv, e.ar.Bin(token.ADD, tInt, dlo, n)))
 	srcIdx := e.ar.Bin(token.ADD, tInt, slo, e.ar.Bin(token.SUB, tInt, kv, dlo))
 	sel := Select(na, kv)
@@ -402,7 +402,7 @@ func (x *Exec) copyElems(st *State, elem types.Type, dreg, dlo, n *Term, src *VS
 		old := SelectD(m, dreg)
 		srcA := SelectD(m, src.Reg)
 		na := e.fresh("cpm", old.S)
-		kv := Var("k!cp", e.ar.I())
+		kv := Var("$b_kcp", e.ar.I())
 		in := And(e.ar.Cmp(token.LEQ, tInt, dlo, kv), e.ar.Cmp(token.LSS, tInt, kv, e.ar.Bin(token.ADD, tInt, dlo, n)))
 		srcIdx := e.ar.Bin(token.ADD, tInt, src.Off, e.ar.Bin(token.SUB, tInt, kv, dlo))
 		sel := Select(na, kv)
@@ -577,6 +577,10 @@ func (x *Exec) applySpecNamed(st *State, c *ssa.Call, fn *ssa.Function, spec *Fu
 	}
 	for _, cl := range spec.Requires {
 		g := x.evalClause(st, env, cl, spec)
+		if !x.primary && x.top != nil && x.pure == 0 {
+			st.assume(g)
+			continue
+		}
 		nm := fmt.Sprintf("%s/pre@%s#%d.%d", x.qname, calleeName, callOrd, cl.Ord)
 		if fr := st.ext().fr; fr.parent != nil {
 			nm = fmt.Sprintf("%s/pre@%s@%s#%d.%d", x.qname, calleeName, e.qualName(fr.fn), callOrd, cl.Ord)
@@ -584,7 +588,7 @@ func (x *Exec) applySpecNamed(st *State, c *ssa.Call, fn *ssa.Function, spec *Fu
 		x.oblige(st, nm, "pre", g, "precondition of "+calleeName+": "+cl.Text, x.posOf(c), nil)
 	}
 	// termination of recursion
-	if fn != nil && x.top != nil && (fn == x.top || (x.top.Origin() != nil && fn == x.top.Origin())) && spec.Decreases != nil && x.measure0 != nil && st.ext().fr.parent == nil {
+	if x.primary && fn != nil && x.top != nil && (fn == x.top || (x.top.Origin() != nil && fn == x.top.Origin())) && spec.Decreases != nil && x.measure0 != nil && st.ext().fr.parent == nil {
 		m := x.evalTerm(st, env, spec.Decreases)
 		var g *Term
 		if m.S.K == SBV {
@@ -627,6 +631,9 @@ func (x *Exec) applySpecNamed(st *State, c *ssa.Call, fn *ssa.Function, spec *Fu
 		penv = penv.with(l.Name, tv)
 	}
 	for _, cl := range spec.Ensures {
+		if x.group != "" && cl.group() != "" && cl.group() != x.group {
+			continue // clause groups: a pass uses the callee's clauses of the same group only
+		}
 		st.assume(x.evalClause(st, penv, cl, spec))
 	}
 	k(st, x.resultOf(sig, rs))
